@@ -113,7 +113,8 @@ FASTOR_INLINE void reverse() {
     V vec;
     FASTOR_INDEX i = 0;
     for (; i< ROUND_DOWN(size(),V::Size); i+=V::Size) {
-        vec.load(&tmp[size() - i - V::Size], is_aligned());
+        // tmp is aligned but tmp+size()-i-V::Size is not unless size() is a multiple of V::Size
+        vec.load(&tmp[size() - i - V::Size], false);
         vec.reverse().store(&_data[i], is_aligned());
     }
     for (; i< size(); ++i) {
